@@ -575,7 +575,7 @@ func (w *World) RecordLost(peer, why string) {
 	ev := map[string]interface{}{"ev": "lost", "peer": p.Name, "why": why}
 	t := w.Bess.Snapshot()
 	ev["dp"] = w.dpJSON()
-	ev["cmds"] = t.Cmds
+	ev["cmds"] = t.Writes
 	ev["errs"] = t.Errs
 
 	if w.SnapEvery {
@@ -739,7 +739,7 @@ func (w *World) EstabBurst(peers []string, reqs []*SessReq) [][]pfcpx.Dgram {
 		ds := out[i]
 		resps := allResps[i]
 
-		ev := map[string]interface{}{"ev": "req", "kind": "estab", "peer": s.p.Name, "req": s.req, "resps": resps, "dp": dp, "cmds": t.Cmds, "errs": t.Errs,
+		ev := map[string]interface{}{"ev": "req", "kind": "estab", "peer": s.p.Name, "req": s.req, "resps": resps, "dp": dp, "cmds": t.Writes, "errs": t.Errs,
 			"markers": []interface{}{}, "burst": i < len(ss)-1}
 		if snap != nil {
 			ev["snap"] = snap
@@ -881,9 +881,9 @@ func (w *World) Inject(peer, what string, raw []byte) []pfcpx.Dgram {
 	t := w.Bess.Snapshot()
 	dp := w.dpJSON()
 	w.collectMarkers(time.Time{})
-	w.emit(map[string]interface{}{"ev": "inject", "peer": p.Name, "what": what, "len": len(raw), "resps": proj(ds), "newToks": toks, "dp": dp, "cmds": t.Cmds, "errs": t.Errs})
+	w.emit(map[string]interface{}{"ev": "inject", "peer": p.Name, "what": what, "len": len(raw), "resps": proj(ds), "newToks": toks, "dp": dp, "cmds": t.Writes, "errs": t.Errs})
 	w.emit(map[string]interface{}{"ev": "req", "kind": "hb", "peer": p.Name, "req": map[string]interface{}{"seq": pfcpx.V32(uint64(seq))}, "resps": proj(hb),
-		"dp": dp, "cmds": t.Cmds, "errs": t.Errs, "markers": []interface{}{}})
+		"dp": dp, "cmds": t.Writes, "errs": t.Errs, "markers": []interface{}{}})
 	w.Steps += 2
 	w.CheckAlive()
 
@@ -910,7 +910,7 @@ func (w *World) Cleanup(peer string) {
 	toks := w.newToks()
 	t := w.Bess.Snapshot()
 	w.collectMarkers(time.Time{})
-	w.emit(map[string]interface{}{"ev": "cleanup", "peer": p.Name, "newToks": toks, "dp": w.dpJSON(), "cmds": t.Cmds, "errs": t.Errs})
+	w.emit(map[string]interface{}{"ev": "cleanup", "peer": p.Name, "newToks": toks, "dp": w.dpJSON(), "cmds": t.Writes, "errs": t.Errs})
 	w.CheckAlive()
 }
 
@@ -992,7 +992,7 @@ func (w *World) FinishStop(start time.Time, errsBefore int, limit time.Duration)
 
 	t := w.Bess.Snapshot()
 	w.emit(map[string]interface{}{"ev": "stop", "exited": exited, "exit": exit, "panic": head, "ms": ms, "limitMs": int(limit / time.Millisecond),
-		"errs": t.Errs, "errsBefore": errsBefore, "dp": w.dpJSON(), "cmds": t.Cmds})
+		"errs": t.Errs, "errsBefore": errsBefore, "dp": w.dpJSON(), "cmds": t.Writes})
 	w.Steps++
 	w.Died = true // no further steps on this incarnation
 
